@@ -23,6 +23,95 @@ from typing import Any, Dict, List, Optional, Tuple
 
 from harness.lib.c11_values import dec_record, enc_record, good_values
 
+# ---------------------------------------------------------------------------------- storage faults during a call
+READ_OPS = ("read_file", "read_file_with_etag", "read_json", "exists", "list_files", "open_file", "open_seekable", "get_size", "get_modified_time")
+WRITE_OPS = ("write_file", "write_file_cas", "write_json", "delete_file")
+
+
+def plane_of(path: Any) -> str:
+    p = str(path).lstrip("/")
+    if p.startswith("metadata/inflight"):
+        return "inflight"
+    if p.startswith("metadata/manifests"):
+        return "manifests"
+    if p.startswith("metadata.version-hint") or p.startswith("metadata/version-hint") or p.endswith(".metadata.json") or p in ("metadata", "metadata/"):
+        return "metadata"
+    if p.startswith("data"):
+        return "data"
+    return "other"
+
+
+class StorageFaults:
+    """Fault windows on a table handle's storage backend (instrumented from outside, per instance).
+
+    spec = {"plane": metadata|inflight|data|manifests, "ops": read|write|all, "start": "call"|"first-write",
+            "count": None (until the call ends) | n}
+    While armed, every matching storage operation raises OSError.  "first-write" arms the window only once the
+    call has performed its first write of any kind (i.e. after its up-front validation)."""
+
+    def __init__(self, storage: Any) -> None:
+        self.spec: Optional[Dict[str, Any]] = None
+        self.live = False
+        self.left: Optional[int] = None
+        self.hits = 0
+        for name in READ_OPS + WRITE_OPS:
+            orig = getattr(storage, name, None)
+            if orig is None:
+                continue
+            setattr(storage, name, self._wrap(name, orig))
+
+    def _wrap(self, name: str, orig: Any) -> Any:
+        def call(path: Any = None, *a: Any, **k: Any) -> Any:
+            spec = self.spec
+            if spec is not None:
+                is_write = name in WRITE_OPS
+                if self.live and plane_of(path) == spec["plane"] and spec["ops"] in ("all", "write" if is_write else "read") \
+                        and (self.left is None or self.left > 0):
+                    if self.left is not None:
+                        self.left -= 1
+                    self.hits += 1
+                    raise OSError(f"injected storage fault: {name}({path!r}) failed")
+                if is_write and not self.live and spec.get("start") == "first-write":
+                    res = orig(path, *a, **k)
+                    self.live = True
+                    return res
+            return orig(path, *a, **k)
+        return call
+
+    def arm(self, spec: Optional[Dict[str, Any]]) -> None:
+        self.spec = spec
+        self.hits = 0
+        if spec is not None:
+            self.live = spec.get("start", "call") == "call"
+            self.left = spec.get("count")
+
+    def disarm(self) -> int:
+        self.spec = None
+        self.live = False
+        return self.hits
+
+
+def faults_of(handle: Any) -> StorageFaults:
+    inj = getattr(handle, "_c11_faults", None)
+    if inj is None:
+        inj = StorageFaults(handle.storage)
+        handle._c11_faults = inj
+    return inj
+
+
+FAULT_SPECS = [
+    {"plane": "metadata", "ops": "read", "start": "call", "count": None},
+    {"plane": "metadata", "ops": "read", "start": "call", "count": None},
+    {"plane": "metadata", "ops": "read", "start": "first-write", "count": None},
+    {"plane": "metadata", "ops": "read", "start": "call", "count": 1},
+    {"plane": "metadata", "ops": "read", "start": "call", "count": 2},
+    {"plane": "metadata", "ops": "all", "start": "call", "count": None},
+    {"plane": "inflight", "ops": "write", "start": "call", "count": None},
+    {"plane": "data", "ops": "read", "start": "call", "count": None},
+    {"plane": "manifests", "ops": "all", "start": "call", "count": None},
+]
+
+
 FILE_KINDS_BAD = ["missing", "avro", "orc_declared", "noncanonical", "reordered", "retyped", "nullability", "extra_col", "garbage"]
 ENDS = ["commit", "commit", "commit", "commit", "rollback", "abandon", "commit_fails"]
 
@@ -86,6 +175,9 @@ def gen_tx_case(rng, ntx: int) -> Dict[str, Any]:
                     sid = 1
                 calls.append({"op": "records", "variant": vname, "arg": arg, "sid": sid, "build": build,
                               "records": gen_records(rng, arg if arg is not None else fields, 0.15)})
+        for c in calls:
+            if rng.random() < 0.2:
+                c["fault"] = copy.deepcopy(rng.choice(FAULT_SPECS))
         txs.append({"handle": rng.choice(["A", "A", "B", "fresh"]), "calls": calls, "end": rng.choice(ENDS)})
     return {"kind": "tx", "fields": fields, "txs": txs, "seed": rng.getrandbits(30)}
 
@@ -100,6 +192,8 @@ def tx_case_json(case: Dict[str, Any]) -> Dict[str, Any]:
             else:
                 calls.append({"op": "records", "variant": c["variant"], "arg": c["arg"], "sid": c["sid"], "build": c.get("build", "fresh"),
                               "records": [enc_record(r) for r in c["records"]]})
+            if c.get("fault"):
+                calls[-1]["fault"] = c["fault"]
         out["txs"].append({"handle": tx["handle"], "end": tx["end"], "calls": calls})
     return out
 
@@ -114,6 +208,8 @@ def tx_case_unjson(j: Dict[str, Any]) -> Dict[str, Any]:
             else:
                 calls.append({"op": "records", "variant": c["variant"], "arg": c["arg"], "sid": c["sid"], "build": c.get("build", "fresh"),
                               "records": [dec_record(r) for r in c["records"]]})
+            if c.get("fault"):
+                calls[-1]["fault"] = c["fault"]
         out["txs"].append({"handle": tx["handle"], "end": tx["end"], "calls": calls})
     return out
 
@@ -207,6 +303,7 @@ def run_tx_case(case: Dict[str, Any], root: str, filters_per_col: int = 1) -> Di
                 handles[h] = load_table(root)
             handle = handles[h]
         before_tx = observe(root)
+        inj = faults_of(handle)
         t = handle.new_transaction().begin()
         tev: Dict[str, Any] = {"tx": ti, "handle": h, "end": tx["end"], "calls": []}
         pending: List[Tuple[Dict[str, str], Dict[str, Any]]] = []
@@ -214,7 +311,7 @@ def run_tx_case(case: Dict[str, Any], root: str, filters_per_col: int = 1) -> Di
         any_accepted = False
         for ci, call in enumerate(tx["calls"]):
             b = observe(root)
-            cev: Dict[str, Any] = {"op": call["op"]}
+            cev: Dict[str, Any] = {"op": call["op"], "fault": call.get("fault")}
             mine: List[Tuple[Dict[str, str], Dict[str, Any]]] = []
             paths: List[str] = []
             try:
@@ -228,19 +325,23 @@ def run_tx_case(case: Dict[str, Any], root: str, filters_per_col: int = 1) -> Di
                         cev["files"].append({"kind": spec["kind"], "footer": foot, "rows": rows_seen, "path": rel})
                         mine += [(opaque, r) for r in rows_seen]
                     b = observe(root)               # the files were put there by the caller, before the call
+                    inj.arm(call.get("fault"))
                     t.append_files(dfs)
                 else:
                     arg = call["arg"]
                     schema = build_schema(call.get("build", "fresh"), call["sid"], arg, fields, handle) if arg is not None else None
+                    inj.arm(call.get("fault"))
                     t.append_data(records=copy.deepcopy(call["records"]), schema=schema)
                     eff = arg if arg is not None else fields
                     types = {f["name"]: declared_type(f["type"]) for f in eff}
                     mine = [(types, r) for r in call["records"]]
                     cev["variant"] = call["variant"]
+                cev["fault_hits"] = inj.disarm()
                 cev["outcome"] = "accepted"
                 any_accepted = True
                 pending += mine
             except Exception as e:                   # noqa: BLE001 - the caller catches and carries on
+                cev["fault_hits"] = inj.disarm()
                 cev["outcome"] = "rejected"
                 cev["error"] = type(e).__name__
                 cev["message"] = str(e)[:160]
@@ -271,7 +372,7 @@ def run_tx_case(case: Dict[str, Any], root: str, filters_per_col: int = 1) -> Di
         else:
             tev["commit"] = "abandoned"
         after = observe(root)
-        label = ",".join(f"{c['op']}:{c['outcome']}" for c in tev["calls"])
+        label = ",".join(f"{c['op']}:{c['outcome']}" + ("(under storage fault)" if c.get("fault") else "") for c in tev["calls"])
         if committed:
             supplied += pending
             want_snaps = len(before_tx["snapshots"]) + (1 if any_accepted else 0)
@@ -304,8 +405,13 @@ def run_tx_case(case: Dict[str, Any], root: str, filters_per_col: int = 1) -> Di
             else:
                 for col in sorted({k for r in got for k in r}):
                     present = [r[col] for r in got if r.get(col) is not None and not (isinstance(r[col], float) and r[col] != r[col])]
-                    for _ in range(filters_per_col if present else 0):
-                        op, lit = rng.choice(OPS), rng.choice(present)
+                    distinct = []
+                    for v in present:
+                        if not any(type(v) is type(w) and v == w for w in distinct):
+                            distinct.append(v)
+                    probes = [(rng.choice(OPS), rng.choice(present)) for _ in range(filters_per_col if present else 0)]
+                    probes += [("==", v) for v in distinct[:6]]          # every stored value must be found again
+                    for op, lit in probes:
                         try:
                             want = _eval_filter(got, col, op, lit)
                             res = fresh.scan(filter={col: (op, lit)})
